@@ -464,28 +464,32 @@ def evaluate(scn: dict, order: list, memo: dict | None = None) -> dict:
             elif ok is not True:
                 viol.append(("reload-not-confirmed:dump-order", head + f"after {labels}, reloading the tree's own "
                              f"dump gave {ok!r}", full))
-            if have == exp.contained:
-                for h in sorted(have):
-                    want = exp.ancestors(h)
-                    try:
-                        part = tree.serialize_public(up_to=tree.elements[h])
-                    except Exception as e:  # noqa: BLE001
-                        viol.append((f"exception:serialize_public:{type(e).__name__}", head + f"up_to: {e}", full))
-                        continue
-                    got = [sha3_256(part[i:i + mat.chunk]).digest() for i in range(0, len(part), mat.chunk)]
-                    if got != want:
-                        viol.append(("dump-up_to-wrong", head + f"after {labels}, serialize_public(up_to="
-                                     f"{name_of.get(h)}) holds {[name_of.get(g) for g in got]}, the root path is "
-                                     f"{[name_of.get(a) for a in want]}", full))
-                        continue
-                    fresh2 = TokenTree(public_key=mat.pub)
-                    try:
-                        fresh2.unserialize_public(part)
-                    except Exception:  # noqa: BLE001, S110
-                        pass
-                    if set(fresh2.elements.keys()) != set(want):
-                        viol.append(("reload-differs:up_to", head + f"after {labels}, the dump up to "
-                                     f"{name_of.get(h)} reloads to {_names(fresh2.elements.keys(), name_of)}", full))
+
+    # serialize_public(up_to=...) only reads ``elements``: once per reached element set
+    ukey = ("upto", id(mat), frozenset(have))
+    if dump is not None and have == exp.contained and ukey not in memo:
+        memo[ukey] = True
+        for h in sorted(have):
+            want = exp.ancestors(h)
+            try:
+                part = tree.serialize_public(up_to=tree.elements[h])
+            except Exception as e:  # noqa: BLE001
+                viol.append((f"exception:serialize_public:{type(e).__name__}", head + f"up_to: {e}", full))
+                continue
+            got = [sha3_256(part[i:i + mat.chunk]).digest() for i in range(0, len(part), mat.chunk)]
+            if got != want:
+                viol.append(("dump-up_to-wrong", head + f"after {labels}, serialize_public(up_to="
+                             f"{name_of.get(h)}) holds {[name_of.get(g) for g in got]}, the root path is "
+                             f"{[name_of.get(a) for a in want]}", full))
+                continue
+            fresh2 = TokenTree(public_key=mat.pub)
+            try:
+                fresh2.unserialize_public(part)
+            except Exception:  # noqa: BLE001, S110
+                pass
+            if set(fresh2.elements.keys()) != set(want):
+                viol.append(("reload-differs:up_to", head + f"after {labels}, the dump up to "
+                             f"{name_of.get(h)} reloads to {_names(fresh2.elements.keys(), name_of)}", full))
 
     # content binding: whatever is attached hashes to the pointer; a wrong offer is refused
     right = {ref.token_hash(*it.triple): it.right_content for it in items if it.right_content is not None}
@@ -671,7 +675,7 @@ def build_scenarios(ctx: core.Ctx) -> tuple[list[dict], dict]:
         return out
 
     # A: every shape x every arrival order, Token objects
-    b["perm_gather"] = {"labelled_n_max": 6 if T else 5, "unlabelled_n_max": 7 if T else 6}
+    b["perm_gather"] = {"labelled_n_max": 6 if T else 5, "unlabelled_n_max": 7 if T else 5}
     for p in shapes(*b["perm_gather"].values()):
         scns.append(scenario("perm", cv, owner, foreign, p))
     # B: the same through the wire form (this includes every dump order and its reverse)
